@@ -38,15 +38,17 @@ var engines = []string{"interpreter", "compiler"}
 
 // variant = the model's Engine record (finding switches).
 type variant struct {
-	Cap string // "-" or a number
-	Ovp int    // overflow panics (Abort delivered on stack overflow)
-	Bao int    // Before delivered for the call that overflows
-	Tip int    // same-module tail calls performed in place (callee's listener silent)
-	Tj  int    // tail calls are jumps: the caller's After is never delivered (compiler)
+	Cap  string // "-" or a number
+	Ovp  int    // overflow panics (Abort delivered on stack overflow)
+	Bao  int    // Before delivered for the call that overflows
+	Tip  int    // same-module tail calls performed in place (callee's listener silent)
+	Tj   int    // tail calls are jumps: the caller's After is never delivered (compiler)
 	Scap string // "-" or the number of frames the stack iterator is truncated to
 }
 
-func (v variant) toks() string { return fmt.Sprintf("%s %d %d %d %d %s", v.Cap, v.Ovp, v.Bao, v.Tip, v.Tj, v.Scap) }
+func (v variant) toks() string {
+	return fmt.Sprintf("%s %d %d %d %d %s", v.Cap, v.Ovp, v.Bao, v.Tip, v.Tj, v.Scap)
+}
 
 var variants = map[string]*variant{
 	"interpreter": {Cap: "-", Ovp: 1, Bao: 0, Tip: 0, Scap: "-"},
@@ -207,7 +209,7 @@ func checkProgram(scn string, p *Program, sets []lset) {
 					want := eventsStr(project(allRun[ci].Events, S))
 					if want != eventsStr(cr.Events) {
 						rep.Violate(hx.Violation{Kind: "impl-violation", Signature: "C20:subset-stream-not-projection:" + eng,
-							What: "events seen by a listener subset are not the projection of the all-listeners stream (values, stack snapshot incl. frames without listener)",
+							What:  "events seen by a listener subset are not the projection of the all-listeners stream (values, stack snapshot incl. frames without listener)",
 							Input: in, Expected: want, Actual: eventsStr(cr.Events)})
 					}
 				}
@@ -505,6 +507,7 @@ func main() {
 	overflow()
 	sharedCache()
 	largeModule()
+	recompile()
 	randomPrograms(seed+77, n/2, true)
 	rep.Note("engine variants tied on this run: interpreter=%+v compiler=%+v", *variants["interpreter"], *variants["compiler"])
 	rep.Note("GOMAXPROCS=%d", runtime.GOMAXPROCS(0))
